@@ -430,3 +430,51 @@ package route
 //@   loop 6 invariant forall q int :: 0 <= q && q < usedSlots ==> targets[q] == nil || livePick(r.Targets, targets[q])
 //@   loop 7 invariant len(targets) == usedSlots && fresh(targets) && 0 <= next && next < usedSlots && s.n > 0 && s.n <= usedSlots && 0 <= s.i && s.i < len(r.Targets) && r.Targets[s.i].Weight > 0.0
 //@   loop 7 invariant forall q int :: 0 <= q && q < usedSlots ==> targets[q] == nil || livePick(r.Targets, targets[q])
+//@
+//@ // ---- C04 / C05: 'route weight' spreads a share over the matching targets -----------------------------------------
+//@ spec fun inStrs(xs []string, x string) bool opaque = exists k int :: 0 <= k && k < len(xs) && xs[k] == x
+//@ spec fun hasAll(src []string, dst []string) bool opaque = forall d int :: 0 <= d && d < len(dst) ==> inStrs(src, dst[d])
+//@
+//@ func contains
+//@   props C04 C05
+//@   assigns nothing
+//@   ensures nopanic
+//@   ensures result == hasAll(src, dst)
+//@   loop 1 invariant forall d int :: 0 <= d && d <= rangeindex ==> inStrs(src, dst[d])
+//@   loop 2 invariant !found && forall k int :: 0 <= k && k <= rangeindex ==> src[k] != d
+//@
+//@ // what a configured weight is stored as (in the real-number model; NaN does not exist there)
+//@ spec fun clampW(w float64) float64 = w < 0.0 ? 0.0 : (w > 1000000000.0 ? 1000000000.0 : w)
+//@
+//@ func clampWeight
+//@   props C04 C02
+//@   assigns nothing
+//@   ensures nopanic
+//@   ensures result == clampW(w)
+//@
+//@ // the targets a 'route weight' command selects
+//@ spec fun wmatch(t *Target, service string, tags []string) bool = (service == "" || t.Service == service) && (len(tags) == 0 || hasAll(t.Tags, tags))
+//@ spec fun nMatch(ts []*Target, n int, service string, tags []string) int decreases n = n <= 0 ? 0 : nMatch(ts, n-1, service, tags) + (wmatch(ts[n-1], service, tags) ? 1 : 0)
+//@
+//@ func (*Route).setWeight$1
+//@   props C04 C05
+//@   requires r != nil && wfTargets(r.Targets)
+//@   assigns Target.FixedWeight
+//@   ensures nopanic
+//@   ensures result == nMatch(r.Targets, len(r.Targets), service, tags) && 0 <= result && result <= len(r.Targets)
+//@   // exactly the matching targets get the new fixed weight
+//@   ensures forall j int :: 0 <= j && j < len(r.Targets) ==> r.Targets[j].FixedWeight == (wmatch(r.Targets[j], service, tags) ? clampW(w) : old(r.Targets[j].FixedWeight))
+//@   loop 1 invariant 0 <= n && n <= rangeindex + 1 && n == nMatch(r.Targets, rangeindex+1, service, tags)
+//@   loop 1 invariant forall j int :: 0 <= j && j < len(r.Targets) ==> r.Targets[j].FixedWeight == ((j <= rangeindex && wmatch(r.Targets[j], service, tags)) ? clampW(w) : old(r.Targets[j].FixedWeight))
+//@
+//@ func (*Route).setWeight
+//@   props C04 C05
+//@   requires r != nil && wfTargets(r.Targets)
+//@   assigns Target.FixedWeight, Target.Weight, r.wTargets
+//@   ensures nopanic
+//@   ensures result == nMatch(r.Targets, len(r.Targets), service, tags)
+//@   // the share is divided equally among the matching targets; nothing else changes
+//@   ensures forall j int :: 0 <= j && j < len(r.Targets) ==> r.Targets[j].FixedWeight == (wmatch(r.Targets[j], service, tags) ? clampW(weight / float64(result)) : old(r.Targets[j].FixedWeight))
+//@   // and the route is weighed again: every effective weight is the prescribed one for the new fixed weights
+//@   ensures result > 0 ==> forall j int :: 0 <= j && j < len(r.Targets) ==> r.Targets[j].Weight == wexp(r.Targets, j)
+//@   ensures result > 0 ==> forall q int :: 0 <= q && q < len(r.wTargets) ==> r.wTargets[q] == nil || livePick(r.Targets, r.wTargets[q])
